@@ -567,6 +567,44 @@ fn select_item(rng: &mut Rng, i: usize, has_bool: bool) -> (String, String) {
     }
 }
 
+/// NOT at text level ("NOT is two-valued", through parser AND lowering): `SELECT (c) AS p, NOT (c) AS q, NOT c AS u FROM t` for a
+/// generated condition `c` (IN / NOT IN with nullable operands and NULL members, comparisons, IS NULL, AND / OR …): on every
+/// row where `c` is TRUE the other two cells are FALSE and the other way round. (`c` NULL: no demand — see DESIGN, NOT NULL.)
+/// The expression stream judges the evaluator on lowered trees; a lowering that rewrites `NOT (x IN …)` is only visible here.
+fn not_texts(run: &mut Run, rng: &mut Rng, n: usize) {
+    use crate::c04::{gen_input, join_lines};
+    use crate::engine_run::{prepare, run_files};
+    use crate::queries::{gen_schema, gen_sql_expr, Ty};
+    for _ in 0..n {
+        let sch = gen_schema(rng);
+        let c = if rng.chance(1, 2) {
+            let (col, lits) = *rng.pick(&[("w", ["1", "2", "NULL"]), ("k", ["'a'", "'b'", "NULL"]), ("v", ["0", "1", "NULL"])]);
+            format!("{} {}IN ({}, {})", col, if rng.chance(1, 2) { "NOT " } else { "" }, lits[rng.below(2)], lits[rng.below(3)])
+        } else { gen_sql_expr(rng, 2, Ty::Bool, &sch, false) };
+        let text = format!("SELECT ({c}) AS p, NOT ({c}) AS q, NOT {c} AS u FROM t", c = c);
+        let prepared = match prepare(&sch.defs, &text) { Ok(p) => p, Err(_) => { run.count("not-text:rejected"); continue; } };
+        let nl = 1 + rng.below(8);
+        let null_pct = *rng.pick(&[10u64, 40, 70]);
+        let lines = gen_input(rng, nl, null_pct, false);
+        let out = run_files(&prepared, &[join_lines(&lines)]);
+        run.oracle_checks += 1;
+        if out.status != "ok" { run.count("not-text:error"); continue; }
+        for rec in out.records() {
+            let cells: Vec<&str> = rec.split(", ").collect();
+            if cells.len() != 3 { continue; }
+            let val = |i: usize| cells[i].splitn(2, ": ").nth(1).unwrap_or("");
+            let (p, q, u) = (val(0), val(1), val(2));
+            let want = match p { "true" => "false", "false" => "true", _ => { run.count("not-text:null"); continue; } };
+            run.count("not-text:decided");
+            if q != want || u != want {
+                run.fail(format!("query={} input={:?}", text, lines), "not-of-condition-not-negation",
+                         format!("record `{}`: the condition is {}, so NOT of it is {} in both spellings", rec, p, want));
+                break;
+            }
+        }
+    }
+}
+
 fn select_level(run: &mut Run, rng: &mut Rng, n: usize) {
     use crate::c04::{gen_input, join_lines};
     use crate::engine_run::{batch_case, prepare, run_files};
@@ -823,6 +861,7 @@ pub fn run(p: &Params) -> Run {
     crate::c03func::function_cases(&mut run, &mut rng, p.tier_thorough);
     let n_stmt = p.n(1200, 40_000);
     select_level(&mut run, &mut rng, n_stmt);
+    not_texts(&mut run, &mut rng, n_stmt / 2);
     anchor_cases(&mut run);
     tz_stream(&mut run, p);
     run.notes.push("statement level: SELECT lists mixing columns, qualified columns, expressions, `input`, `*`, aliases (also clashing ones) with WHERE; names checked against alias|column|p<i>; whole-run output = concatenation of the per-line outputs; three-way with Spec.Select".to_owned());
